@@ -57,7 +57,7 @@ type vfRedisEvent struct {
 	Name    string // upper-case command name
 	Key     string // first key argument (raw)
 	IsLock  bool
-	LockOp  string // for lock scripts: obtain | refresh | release-or-pttl (by the script's argument count)
+	LockOp  string        // for lock scripts: obtain | refresh | release-or-pttl (by the script's argument count)
 	LockTTL time.Duration // obtain: the time-to-live the store holds for the lock key right after the script ran
 	Fault   vfRedisFault
 	Err     string
